@@ -27,7 +27,7 @@ type ListParams struct {
 	ClientN    int        `json:"client_n,omitempty"`
 	Profile    RegProfile `json:"profile"`
 	Last       string     `json:"last,omitempty"`
-	Helper     bool       `json:"helper,omitempty"` // go through registry.Tags / registry.Referrers, which collect all pages
+	Helper     bool       `json:"helper,omitempty"`       // go through registry.Tags / registry.Referrers, which collect all pages
 	FailAtPage int        `json:"fail_at_page,omitempty"` // callback fails at this page (1-based; 0 = never)
 	MaxMeta    int64      `json:"max_meta,omitempty"`
 	Pad        int        `json:"pad,omitempty"`
